@@ -510,4 +510,59 @@ theorem splitParen_close (inner rest : List Char) (h : ')' ∉ inner) :
     have hcs : ')' ∉ cs := by intro e; apply h; simp [e]
     simp [splitParen, hc, ih hcs]
 
+
+/-! ## unquoted words -/
+
+
+/-- a character that needs no quoting: not white space (`unicode.IsSpace`) and not a quote character -/
+def plainChar (c : Char) : Bool := !isSpace c && c != '"' && c != '\''
+
+/-- words separated by one blank, no quoting at all -/
+def pjoin : List (List Char) → List Char
+  | [] => []
+  | [a] => a
+  | a :: b :: as => a ++ ' ' :: pjoin (b :: as)
+
+/-- outside quotes, a run of plain characters is appended to the current word -/
+theorem run_plain (w : List Char) (hw : ∀ c ∈ w, plainChar c = true) :
+    ∀ (args : List (List Char)) (cur rest : List Char) (has : Bool),
+    run { args := args, cur := cur, inQ := false, q := ' ', has := has } (w ++ rest)
+  = run { args := args, cur := w.reverse ++ cur, inQ := false, q := ' ', has := has || !w.isEmpty } rest := by
+  induction w with
+  | nil => intro args cur rest has; simp
+  | cons c cs ih =>
+    intro args cur rest has
+    have hc := hw c (List.mem_cons_self ..)
+    simp only [plainChar, Bool.and_eq_true, Bool.not_eq_true', bne_iff_ne, ne_eq] at hc
+    have hcs : ∀ d ∈ cs, plainChar d = true := fun d hd => hw d (List.mem_cons_of_mem _ hd)
+    rw [List.cons_append, run_cons]
+    simp only [step, hc.1.1, hc.1.2, hc.2, Bool.not_false, decide_false, Bool.or_self, Bool.false_eq_true,
+      if_false, Bool.false_and, Bool.and_false]
+    rw [ih hcs]
+    simp
+
+theorem run_pjoin : ∀ (as : List (List Char)) (a : List Char) (done : List (List Char)),
+    (∀ x ∈ a :: as, x ≠ [] ∧ ∀ c ∈ x, plainChar c = true) →
+    run { args := done, cur := [], inQ := false, q := ' ', has := false } (pjoin (a :: as))
+  = { args := done ++ (a :: as).dropLast, cur := ((a :: as).getLast (by simp)).reverse,
+      inQ := false, q := ' ', has := true } := by
+  intro as
+  induction as with
+  | nil =>
+    intro a done h
+    have ha := h a (List.mem_cons_self ..)
+    have := run_plain a ha.2 done [] [] false
+    simp only [List.append_nil] at this
+    have hne : a.isEmpty = false := by cases a <;> simp_all
+    simp [pjoin, this, run_nil, hne]
+  | cons b bs ih =>
+    intro a done h
+    have ha := h a (List.mem_cons_self ..)
+    have hne : a.isEmpty = false := by cases a <;> simp_all
+    simp only [pjoin]
+    rw [run_plain a ha.2, run_cons]
+    simp [step, isSpace_space, hne]
+    rw [ih b (done ++ [a]) (fun x hx => h x (List.mem_cons_of_mem _ hx))]
+    simp
+
 end LlgoVerif.Shell
